@@ -269,6 +269,26 @@ void h_init_defaults(void)
 	else if (k == 12) IDF(CFGT_PTR, 0, 0, 0); else IDF(CFGT_FUNC, 0, 0, 0);
 	CANARY("init_defaults");
 }
+/* a schema with distinct option names is accepted silently; (C01 C06: creating a context never produces a diagnostic for a
+ * well-formed schema - a diagnostic is the report of a rejection).  Two options without defaults, names one byte. */
+void h_init_defaults_names(void)
+{
+	cfg_t cfg; cfg_opt_t opts[3]; char n0[2], n1[2]; _Bool nocase = nondet_bool();
+	mk(&cfg); reset(); memset(opts, 0, sizeof opts);
+	n0[0] = nondet_char(); n0[1] = 0; n1[0] = nondet_char(); n1[1] = 0;
+	__CPROVER_assume(n0[0] != 0 && n1[0] != 0);
+	opts[0].name = n0; opts[0].type = CFGT_INT; opts[0].flags = CFGF_NODEFAULT | (nocase ? CFGF_NOCASE : 0);
+	opts[1].name = n1; opts[1].type = CFGT_INT; opts[1].flags = CFGF_NODEFAULT;
+	cfg.opts = opts; g_diag = 0;
+	cfg_init_defaults(&cfg);
+	{
+		char a = n0[0], b = n1[0];
+		_Bool same = nocase ? ((a >= 'A' && a <= 'Z' ? a - 'A' + 'a' : a) == (b >= 'A' && b <= 'Z' ? b - 'A' + 'a' : b)) : a == b;
+		CHECK("C01,C06", same || g_diag == 0, "a schema whose option names differ (under the options' case rule) is accepted without any diagnostic");
+		CHECK("C01", g_set_calls == 0 && g_pi_calls == 0 && opts[0].flags == (CFGF_NODEFAULT | (nocase ? CFGF_NOCASE : 0)) && opts[1].flags == CFGF_NODEFAULT, "options without default are left alone, whatever their number");
+	}
+	CANARY("init_defaults_names");
+}
 /* an unparsable default text aborts the process: recorded finding (the statement C18 wants failures reported by return values) */
 void h_init_defaults_abort(void)
 {
